@@ -6,7 +6,7 @@
       symbol, the same packets are genuine for the other content, the log cannot spell both);
    C. one transfer on a receiver that holds a current instance listing the object and no object: writer (toi, k);
    D. the session: the exact log after m transfers, for every setting of cf_once and of the no-cache flag. *)
-From FluteV Require Import Model.BlockEnc Spec.C08Spec Proofs.BlockEncProofs Proofs.C08Full Proofs.C01Full Proofs.C01Esi.
+From FluteV Require Import Proofs.D48Step Model.BlockEnc Spec.C08Spec Proofs.BlockEncProofs Proofs.C08Full Proofs.C01Full Proofs.C01Esi.
 From FluteV Require Import Model.Partition Spec.C07Spec Proofs.PartitionProofs Model.ObjRecv Model.Recv
   Spec.RecvSpec Spec.SessionSpec Proofs.RecvProofs Proofs.SessionProofs Proofs.C02Full Proofs.C09Full Proofs.C02Session.
 From Coq Require Import Lia.
@@ -328,7 +328,8 @@ Section Xfer.
     unfold init_partition at 1. unfold nb_block at 1. prj.
     change (0 <? 0 + N.of_nat (length (@nil bdec))) with false. cbv iota beta. rewrite Hpart. cbv iota beta.
     unfold init_writer. prj. rewrite Hnc, Hbld. cbv iota beta zeta.
-    rewrite Hopen. cbn [negb]. destruct (N.eqb_spec L 0) as [G|_]; [lia|]. prj.
+    rewrite Hopen. cbn [negb]. destruct (N.eqb_spec L 0) as [G|HL0]; [lia|]. prj.
+    try (d48_skip HL0).
     match goal with |- context [push_from_cache E ?x ?y] => set (o3 := x); set (c3 := y) end.
     pose proof (PF n_pos) as Hn.
     set (m := N.to_nat (N.min n 2048)) in *.
